@@ -417,7 +417,10 @@ def run(F, R, tier):
             use = c01.result_use(b, bi)
             r4.site("%s: from_unix result %s" % (L.short(p), use), t["sp"])
             r4.require(use in ("propagated", "returned", "matched"), (p, "from_unix-result", use), "Timestamp::from_unix result is %s in %s" % (use, L.short(p)), t["sp"])
-    r4.floor(4)
+    # the presentation's nbf/iat are converted where the presentation is validated (JwtPresentationValidator::validate): that this conversion
+    # is `Some(to_issuance_date()?)` whenever either claim is present — error propagated, never `.ok()` — is C03-R3
+    L.depends_on(r4, F, tier, ["C03-R3"], "a presentation's numeric issuance date outside 0000-9999 is rejected, not dropped")
+    r4.floor(5)
 
     # ------------------------------------------------------------------ R5 serde wiring
     r5 = R.rule("C07-R5", "T12", "what the writer omits the reader restores: every skip_serializing_if field is Option-typed or has a default; custom claims are flattened")
